@@ -228,10 +228,17 @@ def pipeline(run, prop):
     if bad:
         raise vlib.InfraError("driver could not materialise %d behaviours, e.g. %s" % (len(bad), bad[0]))
     for s in sums:
-        # non-trivial: a pass ran after at least one NodeClaim had been launched (in-flight capacity is in play), or (C03) a
-        # NodeClaim was stored under a limit
-        run.note_case(s["name"], s.get("passesRan", 0) >= 2 and s.get("launches", 0) >= 1)
+        # non-trivial: (C04) a pass ran after at least one NodeClaim had been launched (in-flight capacity is in play);
+        # (C03) a NodeClaim was stored for a pool that has limits
+        run.note_case(s["name"], s.get("passesWithInflight", 0) >= 1 if prop == "C04" else s.get("createdUnderLimits", 0) >= 1)
     viol = run.validate("MultiPass_Trace", "MultiPass_Trace.cfg", files, par=4 if dev else None, timeout=3000)
+    counts = {}
+    for f in files:
+        for k, v in json.load(open(f + ".viol.json")).get("counts", {}).items():
+            counts[k] = counts.get(k, 0) + v
+    run.extra_cov["guard_evaluations"] = counts
+    if not counts.get("opensJudged") or not counts.get("commits"):
+        raise vlib.InfraError("vacuous run: no `open` / `commit` decision of the real scheduler was judged (%s)" % counts)
     drift = [v for v in viol if str(v.get("guard", "")).startswith("Drift_MP_PoolNotReady")]
     if drift:
         raise vlib.InfraError("a NodePool lost its Ready condition during a behaviour (harness problem, no verdict): %s" % drift[:2])
